@@ -342,7 +342,7 @@ def run(ctx):
 
 
 MANIFEST_ENTRY = {
-    "technique": "static analysis: abstract evaluation (rules/absint.py) of the default_to choice (inherits entry / suppress_key_warnings x present or absent), of the inherits chain walk on a map with a chain, a cycle and a self-loop, and of Locale::merge on missing / present / surplus keys; MIR freshness (new/clear dominance) of the visited set at every walk; syn inspection of the four per-locale generators in canonical form",
+    "technique": "static analysis: abstract evaluation (rules/absint.py) of check_locales_inner over every order of the locales (which default_to each locale is merged with), of ParsedValue::merge on null values, of Locale::merge, of the chain walk default_of_inner and of compute; MIR provenance of the merge argument; generator templates in canonical form",
     "level_text": "Structural: where the inherits table enters (DefaultTo), where fallbacks are recorded, how the chain is walked (incl. that every walk starts from an empty visited set) and how every generator consumes the result are decided from the code for all projects: table-like functions by exhaustive case analysis over constructor shapes and map shapes, the rest by dominance / provenance. No project is loaded.",
     "level_note": "Trusted: Rust or-pattern semantics. Known finding D11. Not decided: concrete chain results.",
 }
